@@ -29,6 +29,15 @@ def rat(x):
     raise TypeError('rat(%r)' % type(x))
 
 
+def ratx(x):
+    """rat() for values OBSERVED from the implementation: a non-finite number becomes the text "nan", on which the
+    specification cannot be evaluated - the case is then rejected (never a harness failure)"""
+    try:
+        return rat(x)
+    except ValueError:
+        return 'nan'
+
+
 def frac(s):
     """inverse of rat"""
     if isinstance(s, int):
